@@ -178,7 +178,12 @@ func c13Workloads(tier string) []c13Workload {
 				// inline data in a correlated subquery: every goroutine names its temporary view with file.RandomString (race-random-string)
 				q("SELECT a.id FROM MID a WHERE EXISTS (SELECT 1 FROM CSV(',', DATA::('a,b\n1,2\n3,4')) x WHERE x.a = a.k)")}},
 		{Name: "subquery-outer-refs", Sites: "correlated subqueries whose goroutines share the field-index cache of the outer record (reference_scope.go)",
-			Queries: []string{"SELECT id, (SELECT COUNT(*) FROM t300 b WHERE b.v = a.v OR b.k = a.k OR b.id = a.id OR b.s = a.s) AS c FROM t300 a WHERE id < 60"}},
+			Queries: []string{"SELECT id, (SELECT COUNT(*) FROM t300 b WHERE b.v = a.v OR b.k = a.k OR b.id = a.id OR b.s = a.s) AS c FROM t300 a WHERE id < 60",
+				// statements that fail late (in LIMIT / OFFSET / ORDER BY / the select list, also on the first pass of a HAVING without
+				// GROUP BY) hand their scope objects back; the parallel sub-queries after them must still get objects of their own
+				"SELECT id FROM t300 LIMIT 'x'", "SELECT id FROM t300 ORDER BY id OFFSET 'y'", "SELECT COUNT(*) FROM t300 HAVING EXISTS (SELECT 1 FROM t600 LIMIT COUNT(*))", "SELECT id, nocolumn FROM t300 ORDER BY id LIMIT 3",
+				"SELECT a.id FROM t600 a WHERE EXISTS (SELECT 1 FROM t300 b WHERE b.k = a.k AND b.v > a.v) AND a.id IN (SELECT c.id FROM t300 c WHERE c.v < 50)",
+				"SELECT a.id, (SELECT MAX(b.v) FROM t300 b WHERE b.k = a.k) AS m FROM t600 a WHERE a.v IN (SELECT v FROM t300 x WHERE x.k = a.k)"}},
 		{Name: "functions", Sites: "built-in functions with process-wide state evaluated in worker goroutines: RAND (shared generator), regular expression and datetime-format caches, NOW, JSON_VALUE, user-defined scalar functions",
 			Queries: []string{q("SELECT COUNT(*) FROM BIG WHERE RAND() < 0.5"), q("SELECT id, RAND(1, 100) AS r FROM BIG WHERE k < 10"),
 				q("SELECT id, REGEXP_REPLACE(s, '[aeiou]', '_') AS a, REGEXP_MATCH(s, '^b') AS b, REGEXP_FIND(s, '[a-c]+') AS c FROM BIG"),
